@@ -34,4 +34,15 @@ def rabs (x : Rat) : Rat := if x < 0 then -x else x
 def RoundedTo (P : Nat) (x v : Rat) : Prop :=
   (x = 0 → v = 0) ∧ (x ≠ 0 → ∃ X : Int, pow10 X ≤ rabs x ∧ rabs x < pow10 (X + 1) ∧ rabs (v - x) ≤ pow10 (X - (P : Int) + 1) / 2)
 
+/-- `k` is the natural number `n ≥ 2^53` correctly rounded to binary64: the doubles around `n` are the multiples
+    `q·2^e` of the spacing `2^e`, `e = ⌊log2 n⌋ − 52`, with a 53-bit significand `2^52 ≤ q ≤ 2^53`; `k` is one of them at
+    distance at most half a spacing from `n`, and on a tie the one with the even significand -/
+def Nearest53 (n k : Nat) : Prop :=
+  ∃ q, k = q * 2 ^ (Nat.log2 n - 52) ∧ 2 ^ 52 ≤ q ∧ q ≤ 2 ^ 53 ∧
+    2 * (k - n) ≤ 2 ^ (Nat.log2 n - 52) ∧ 2 * (n - k) ≤ 2 ^ (Nat.log2 n - 52) ∧
+    ((2 * (k - n) = 2 ^ (Nat.log2 n - 52) ∨ 2 * (n - k) = 2 ^ (Nat.log2 n - 52)) → q % 2 = 0)
+
+/-- bit pattern of ±infinity -/
+def infBits (neg : Bool) : UInt64 := UInt64.ofNat ((if neg then 2 ^ 63 else 0) + 2047 * 2 ^ 52)
+
 end NumVal
